@@ -1269,6 +1269,13 @@ fn explore(ctx: &Ctx) {
         let st = lean_bfs(&m, 3, ctx);
         m.flush_stats(ctx);
         ctx.set("pass_full", stats_json(3, &st));
+        // plus the reduced alphabet two levels deeper
+        let red = reduced_alphabet();
+        ctx.set("alphabet_reduced", json!({"describe": describe(&red), "actions": red}));
+        let m2 = C33::new(2, red);
+        let st2 = lean_bfs(&m2, 6, ctx);
+        m2.flush_stats(ctx);
+        ctx.set("pass_reduced", stats_json(6, &st2));
     } else {
         // first the reduced alphabet (complete to depth 6), then the full one to depth 5
         // (the last level stops at the time budget and then reports a cap)
